@@ -32,7 +32,7 @@ ASSUMPTIONS = ['the real file system of the sandbox holds the simulated director
                'descriptor at the instant save() returns (what a kill -9 of the process would leave)',
                'after a *reported* write failure the file content is not judged (the property does not speak about torn files)',
                'C16 equality per DESIGN.md Appendix E (ints and integer-valued floats identified; NaN equals NaN)']
-BUDGET = {'quick': {'runs': 1200, 'cap_s': 60, 'wall_s': 110, 'chunk': 25},
+BUDGET = {'quick': {'runs': 1800, 'cap_s': 60, 'wall_s': 110, 'chunk': 25},
           'thorough': {'runs': 60000, 'cap_s': 120, 'wall_s': 1500, 'chunk': 100}}
 
 TARGETS = [('path', 4), ('existing', 4), ('handle', 2), ('dirty_handle', 2), ('bytesio', 1), ('pathobj', 1.5), ('existing_pathobj', 1.5),
